@@ -8,9 +8,9 @@ CONSTANTS
   Emit = FALSE
   KnownClasses = {}
   Rich = FALSE
-  Dev_gram = FALSE
   SingleRangeStr = TRUE
   Styles <- FontOnly
+  Dev_gram <- GramRepaired
   BaseVal <- BaseMid
 INVARIANTS Refines SegmentationOK MapsOK DomainOK BuildForm
 CHECK_DEADLOCK FALSE
